@@ -415,7 +415,67 @@ def check_run(case, rng):
     return fails, stats
 
 
-CHECKS = {"exact": check_exact, "small": check_small, "chain": check_chain, "aux": check_aux, "coeff": check_coeff, "run": check_run}
+def check_caps(case, rng):
+    """two-site and propagate-and-compress schemes with NON-uniform per-bond limits (compress_config.max_dims):
+    every bond must be capped by ITS OWN limit; with limits >= the exact bond dimensions nothing may be truncated"""
+    fails, stats = [], {"errs": {}}
+    bt, order = L.build_basis(case["tree"])
+    ttno = L.TTNO(bt, L.build_terms(case["terms"]))
+    H = np.asarray(ttno.todense(order))
+    hn = float(np.linalg.norm(H, 2))
+    np.random.seed(int(rng.integers(0, 2**31 - 1)))
+    full = L.TTNS.random(bt, int(case.get("qntot", 0)), 256)
+
+    def sub_dim(b):
+        d = int(np.prod([x.nbas for x in b.basis_sets]))
+        for c in b.children:
+            d *= sub_dim(c)
+        return d
+
+    total = sub_dim(bt.root)
+    exact_dims = [1 if b.parent is None else min(sub_dim(b), total // sub_dim(b), fd)
+                  for b, fd in zip(bt.node_list, full.bond_dims)]
+    extra = case.get("extra")                       # None: exact limits; list: per-bond slack added to the exact limits
+    caps = list(exact_dims) if extra is None else [d if i == 0 else d + int(e) for i, (d, e) in enumerate(zip(exact_dims, extra))]
+    ttns = L.TTNS.random(bt, int(case.get("qntot", 0)), list(exact_dims))
+    stats["exact_dims"], stats["caps"], stats["start"] = exact_dims, caps, [int(x) for x in ttns.bond_dims]
+    psi0 = L.dense(ttns, order)
+    step, ns = float(case["step"]), int(case["nsteps"])
+    crit = {"fixed": L.CompressCriteria.fixed, "both": L.CompressCriteria.both}
+    for method in case["methods"]:
+        for cname in case["criteria"]:
+            for imag in case["imag"]:
+                cur = ttns.copy()
+                cur.evolve_config = L.EvolveConfig(L.METHODS[method], ivp_rtol=1e-10, ivp_atol=1e-12, force_ovlp=False)
+                cur.compress_config = L.CompressConfig(crit[cname], threshold=1e-14, max_bonddim=max(caps))
+                cur.compress_config.max_dims = np.array(caps + [1], dtype=int)   # convention of set_bonddim: one entry per node + 1
+                tau = tau_of(step, imag)
+                ref = psi0
+                for k in range(ns):
+                    cur = cur.evolve(ttno, tau)
+                    ref = L.exact(H, ref, tau)
+                bd = [int(x) for x in cur.bond_dims]
+                err = float(np.linalg.norm(L.dense(cur, order) - ref))
+                key = "%s/%s/%s" % (method, cname, "imag" if imag else "real")
+                stats["errs"][key] = err
+                over = [i for i, (b, c) in enumerate(zip(bd, caps)) if b > c]
+                if over:
+                    fails.append({"what": "bond exceeds its own limit", "method": method, "criteria": cname, "imag": imag,
+                                  "bond_dims": bd, "caps": caps})
+                collapsed = [i for i, (b, d) in enumerate(zip(bd, exact_dims)) if b < d]
+                x = hn * step
+                if method == "pc":
+                    tol = ns * (2.0 * x**5 / 120.0 * np.exp(x) + 1e-9) * (np.exp(ns * x) if imag else 1.0)
+                else:
+                    tol = ns * (x**3 + 1e-8) * (np.exp(2 * ns * x) if imag else 1.0)
+                if err > tol or (collapsed and err > 1e-6):
+                    fails.append({"what": "per-bond limits not honoured (truncated below the exact bond dimension)", "method": method,
+                                  "criteria": cname, "imag": imag, "err": err, "tol": tol, "bond_dims": bd, "caps": caps,
+                                  "exact_dims": exact_dims})
+    return fails, stats
+
+
+CHECKS = {"caps": check_caps, "exact": check_exact, "small": check_small, "chain": check_chain, "aux": check_aux, "coeff": check_coeff, "run": check_run}
 
 
 def check_case(case, seed=0):
